@@ -413,6 +413,16 @@ def check_state(basename, ops, res=None):
     if len(T) == 0:
         return 'empty'
     ancestors = states[:-1]
+    # a sibling target: the facets of D, refined, lie in the elements of D.refined although D.refined is not an ancestor;
+    # their chains are spelled (cell, edge, child-of-edge), so the lookup has to re-spell them as (cell, child, edge)
+    if len(ops) >= 2 and ops[-1] == 'refined' and ops[-2] in FACET_OPS:
+        try:
+            sib = apply_topo_op(states[len(ops) - 2][1], 'refined')
+            len(sib), sib.transforms, sib.references
+        except Exception:
+            sib = None
+        if sib is not None and len(sib):
+            ancestors = ancestors + [('/'.join(ops[:-2] + ['refined']) + '(sibling)', sib)]
     n = 0
     for scheme, degree in SCHEMES:
         try:
@@ -601,10 +611,10 @@ def shards(tier):
     out = []
     for b in BASES:
         seqs = op_sequences(tier)
-        nchunk = 2 if tier == 'quick' else 6
+        nchunk = 2 if tier == 'quick' else 4
         for k in range(nchunk):
             out.append({'kind': 'topo', 'base': b, 'chunk': k, 'nchunk': nchunk})
-    nchunk = 2 if tier == 'quick' else 7
+    nchunk = 2 if tier == 'quick' else 4
     for b, g in LOCATE_SHARDS[tier]:
         for k in range(nchunk):
             out.append({'kind': 'locate', 'base': b, 'geom': g, 'chunk': k, 'nchunk': nchunk})
@@ -649,6 +659,10 @@ def run(spec, tier, res):
                 continue
             res.count('evaluations')
             res.count('locate_calls')
+            res.count('transitions')
+            res.count('traces_validated_against_impl')
+            if (iv, skip, tset, maxdist, nprocs) == calls[0]:
+                res.count('states')
             res.distinct('distinct_outcomes', 'locate:' + r.split(':')[0] + ':' + tset + (':skip' if skip else ''))
             res.distinct('distinct_nontrivial', json.dumps(w))
             if len(res.samples) < 1 and tset == 'far' and skip:
